@@ -52,7 +52,7 @@ func readCases(path string) ([]map[string]any, error) {
 }
 
 func ints(v any) []int {
-	var out []int
+	out := []int{}
 	if a, ok := v.([]any); ok {
 		for _, x := range a {
 			if f, ok := x.(float64); ok {
@@ -175,6 +175,8 @@ func Main(args []string) error {
 		return runInRange(w, *seed, *n)
 	case "findnodes":
 		return runFindNodes(w, cases, *seed, *n, *workers)
+	case "versions":
+		return runVersions(w, cases, *seed, *n, *workers)
 	}
 	_ = slow
 	return fmt.Errorf("unknown mode %q", *mode)
